@@ -40,6 +40,7 @@ const (
 	DefKeySwap          // public key of a signature replaced by another user's key
 	DefNoBodySig        // body signature removed
 	DefInnerLayerBroken // two-layer signature chain (API < 2.25), inner meta signature broken
+	DefForgedKey        // signed by a stranger, every signature names the container owner's public key
 	// session tokens
 	DefSessionExpired
 	DefSessionNotYetValid
@@ -66,7 +67,7 @@ const (
 )
 
 var defectNames = [...]string{"none", "sig/no-verify-header", "sig/trusted-peer-ttl2", "sig/body-sig-flip", "sig/body-changed",
-	"sig/meta-sig-flip", "sig/meta-changed", "sig/origin-sig-flip", "sig/key-swap", "sig/no-body-sig", "sig/inner-layer-broken",
+	"sig/meta-sig-flip", "sig/meta-changed", "sig/origin-sig-flip", "sig/key-swap", "sig/no-body-sig", "sig/inner-layer-broken", "sig/forged-owner-key",
 	"session/expired", "session/not-yet-valid", "session/other-container", "session/other-object", "session/wrong-verb",
 	"session/tampered", "session/both-versions",
 	"bearer/expired", "bearer/not-owner", "bearer/other-container", "bearer/other-user", "bearer/tampered",
@@ -75,7 +76,7 @@ var defectNames = [...]string{"none", "sig/no-verify-header", "sig/trusted-peer-
 func (d Defect) String() string { return defectNames[d] }
 
 // IsSignature, IsSession, IsBearer, IsACL classify the defect.
-func (d Defect) IsSignature() bool { return d >= DefNoVerifyHeader && d <= DefInnerLayerBroken }
+func (d Defect) IsSignature() bool { return d >= DefNoVerifyHeader && d <= DefForgedKey }
 func (d Defect) IsSession() bool   { return d >= DefSessionExpired && d <= DefSessionBothVersions }
 func (d Defect) IsBearer() bool    { return d >= DefBearerExpired && d <= DefBearerTampered }
 func (d Defect) IsACL() bool       { return d >= DefBasicACL && d <= DefEACLHeaderRemote }
@@ -123,6 +124,7 @@ type Spec struct {
 	TTL       uint32
 	XHeaders  [][2]string
 	Trusted   bool // sent over a mutually authenticated connection without verification header (TTL 1)
+	TLSPeer   bool // the connection is mutually authenticated (client certificate of a stranger) although the request carries a verification header
 	Late      bool // GET/HEAD only: served by Env.ServerLate (object headers unavailable to eACL at request time)
 
 	Raw         bool
@@ -152,7 +154,7 @@ type Spec struct {
 // Fingerprint identifies the normalised spec for distinct counting.
 func (s Spec) Fingerprint() string {
 	return fmt.Sprintf("%v|c%d o%d r%d s%d v%d t%d x%v tr%v|%v %v %d %d %d|%d %v %d|%d %d %q %v|%d %v %v %v|%v %d",
-		s.Op, s.Cnr, s.Obj, s.Requester, s.Scheme, s.Version, s.TTL, s.XHeaders, [2]bool{s.Trusted, s.Late},
+		s.Op, s.Cnr, s.Obj, s.Requester, s.Scheme, s.Version, s.TTL, s.XHeaders, [3]bool{s.Trusted, s.Late, s.TLSPeer},
 		s.Raw, s.PayloadOnly, s.RangeKind, s.RangeOff, s.RangeLen,
 		s.SearchCount, s.SearchFilters, s.SearchAttrs,
 		len(s.PutPayload), s.PutChunks, s.PutAttr, s.PutTombstone,
@@ -181,6 +183,9 @@ func (s Spec) String() string {
 	}
 	if s.Late {
 		extra += " server=late"
+	}
+	if s.TLSPeer {
+		extra += " tls-peer(with verification header)"
 	}
 	return fmt.Sprintf("%v cnr=%s obj=%s by=%s scheme=%s api=%d.%d ttl=%d trusted=%v xhdr=%v session=%d(bindObj=%v) bearer=%v(forUser=%v)%s DEFECT=%v(arg %d)",
 		s.Op, cn, on, rn, sn, v[0], v[1], s.TTL, s.Trusted, s.XHeaders, s.Session, s.SessionBindObj, s.Bearer, s.BearerForUser, extra, s.Defect, s.DefectArg)
@@ -288,6 +293,30 @@ func Normalize(s Spec) Spec {
 		// condition an authenticated peer could act for the token's issuer
 		// without signing anything
 	}
+	// A TLS-authenticated connection plus a PRESENT verification header: the
+	// header must still be verified. For signature defects this is combined
+	// with TTL 1 (the only TTL for which an authenticated peer may omit the header).
+	if s.Trusted {
+		s.TLSPeer = false
+	}
+	if s.TLSPeer {
+		switch {
+		case d == DefInnerLayerBroken:
+			s.TLSPeer = false // needs TTL >= 2
+		case d == DefNoVerifyHeader:
+			if s.TTL == 1 { // that would be the valid unsigned inter-node request
+				s.TTL = 2
+			}
+		case d.IsSignature():
+			s.TTL = 1
+		}
+	}
+	if d == DefForgedKey {
+		s.Requester, s.Session = IDOther, SessionNone
+		if s.Scheme == SchemeN3 {
+			s.Scheme = SchemeSHA512
+		}
+	}
 	if d == DefOriginSigFlip || d == DefInnerLayerBroken {
 		if v := Versions[s.Version]; !(v[0] == 2 && v[1] < 25) && !(v[0] == 0 && v[1] == 0) {
 			s.Version = 2 // 2.24
@@ -342,7 +371,7 @@ func Normalize(s Spec) Spec {
 			s.Cnr = CnrOpen
 		}
 	default:
-		if s.Cnr == CnrPrivate && !actsAsOwner {
+		if s.Cnr == CnrPrivate && !actsAsOwner && d != DefForgedKey {
 			s.Requester, s.Scheme = IDOwner, min(s.Scheme, SchemeWalletConnect)
 		}
 		if s.Cnr == CnrEACL && !actsAsOwner && (s.Op == OpGet || s.Op == OpHead) && !s.Bearer {
